@@ -4,6 +4,7 @@
 -/
 import Lean.Data.Json
 import CM.Model.Denote
+import CM.Model.StackRaw
 open Lean
 namespace CM
 
@@ -131,5 +132,48 @@ def errToJson (e : Err) : Json := .str e.name
 def callRecToJson (c : CallRec) : Json :=
   .arr #[.str c.f, .arr (c.pos.map valToJson).toArray, .arr (c.kwn.map Json.str).toArray,
     .arr (c.kwv.map valToJson).toArray]
+
+
+def rawFieldOfJson (owner : String) (name : String) (j : Json) : P RawField := do
+  let f := match j.getObjVal? "f" with
+    | .ok (.str s) => s
+    | _ => s!"{owner}.{name}"
+  pure { name, f, args := (← jStrs (jFieldD j "args" (.arr #[]))),
+         opt := (jFieldD j "opt" (.bool false)) == .bool true,
+         isMeta := (jFieldD j "meta" (.bool false)) == .bool true }
+
+def objPairs (j : Json) : P (List (String × Json)) := do
+  match j with
+  | .null => pure []
+  | _ => let o ← j.getObj?; pure o.toList
+
+def rawLayerOfJson (j : Json) : P RawLayer := do
+  let k ← (← jField j "k").getStr?
+  let cls := match j.getObjVal? "cls" with | .ok (.str s) => s | _ => k
+  match k with
+  | "apply" =>
+    let fns ← objPairs (← jField j "fns")
+    let fields ← fns.mapM fun (n, f) => do pure ({ name := n, f := (← f.getStr?), args := [n] } : RawField)
+    pure { k, cls, fields }
+  | "source" | "transform" =>
+    let fields ← (← objPairs (jFieldD j "fields" .null)).mapM fun (n, s) => rawFieldOfJson cls n s
+    let params ← (← objPairs (jFieldD j "params" .null)).mapM fun (n, s) => rawFieldOfJson cls n s
+    let defaults ← (← objPairs (jFieldD j "defaults" .null)).mapM fun (n, v) => do pure ("_" ++ n, (← valOfJson v))
+    let cargs ← (← objPairs (jFieldD j "cargs" .null)).mapM fun (n, v) => do pure ("_" ++ n, (← valOfJson v))
+    let consts := cargs ++ defaults.filter fun (n, _) => !(cargs.any fun c => c.1 == n)
+    let inherit : RawInherit ← match j.getObjVal? "inherit" with
+      | .ok (.bool true) => pure RawInherit.all
+      | .ok (.arr xs) => do pure (RawInherit.names (← xs.toList.mapM fun x => x.getStr?))
+      | _ => pure RawInherit.unset
+    let exclude ← match j.getObjVal? "exclude" with
+      | .ok (.arr xs) => do pure (some (← xs.toList.mapM fun x => x.getStr?))
+      | _ => pure none
+    let ids ← jStrs (jFieldD j "ids" (.arr #[]))
+    pure { k, cls, fields, params, consts, inherit, exclude, ids }
+  | _ =>
+    let names ← match j.getObjVal? "names" with
+      | .ok (.arr xs) => do pure (some (← xs.toList.mapM fun x => x.getStr?))
+      | _ => pure none
+    pure { k, cls, cacheNames := names }
 
 end CM
